@@ -46,6 +46,8 @@ def run(ctx, repo):
     ctx.call(RLNG.o_dump_subset_load, repo)
     ctx.call(RLNG.o_ts_inclusion, repo)
     XL.scan_reference(ctx, repo)
+    ctx.call(R6B.r_tz_sign_compared, repo)
+    ctx.call(RLNG.r_resolve_index, repo)
 
 
 if __name__ == '__main__':
